@@ -88,6 +88,7 @@ UNGUARDED_ALLOWLIST = {
     'WorkflowsController._lookup', 'MaintenanceController.get', 'MaintenanceController.put'}
 
 ABSENT = '00000000-0000-4000-8000-00000000dead'
+OTHER_PROJECT = '12345678-1234-4234-8234-123456789abc'
 
 WF_TEXT = """---
 version: '2.0'
@@ -151,11 +152,15 @@ class App:
         cfg.CONF.set_default('max_pool_size', 1000, group='database')
         db_api.setup_db()
         self.ctx = tbase.get_context()
+        self.other_ctx = auth_context.MistralContext.from_dict({
+            'user_name': 'other-user', 'user': '9-0-44-5', 'tenant': OTHER_PROJECT, 'project_id': OTHER_PROJECT,
+            'project_name': 'other-project', 'is_admin': False})
         auth_context.set_ctx(self.ctx)
         cfg.CONF.set_override('auth_enable', False, group='pecan')
         cfg.CONF.set_override('enabled', False, group='cron_trigger')
         cfg.CONF.set_override('only_builtin_actions', True, 'legacy_action_provider')
         cfg.CONF.set_override('load_action_generators', False, 'legacy_action_provider')
+        cfg.CONF.set_override('allow_action_execution_deletion', True, group='api')
         self.app = pecan.testing.load_test_app(dict(pecan_app.get_pecan_config()))
         self._p_ctx = mock.patch('mistral.context.MistralContext.from_environ')
         m = self._p_ctx.start()
@@ -301,17 +306,20 @@ class App:
             self.auth_context.set_ctx(self.ctx)
             ids = {}
             with db_api.transaction():
-                wf_spec = spec_parser.get_workflow_list_spec_from_yaml(WF_TEXT).get_workflows()[0].to_dict()
+                if not hasattr(self, '_specs'):
+                    self._specs = (
+                        spec_parser.get_workflow_list_spec_from_yaml(WF_TEXT).get_workflows()[0].to_dict(),
+                        spec_parser.get_workbook_spec_from_yaml(WB_TEXT).to_dict(),
+                        spec_parser.get_action_list_spec_from_yaml(ACT_TEXT).get_actions()[0].to_dict())
+                wf_spec, wb_spec, act_spec = copy.deepcopy(self._specs)
                 wf = db_api.create_workflow_definition({
                     'id': '11111111-1111-4111-8111-111111111111', 'name': 'c16_wf', 'namespace': '',
                     'definition': WF_TEXT, 'spec': wf_spec, 'scope': 'private', 'tags': [], 'is_system': False})
                 ids['wf'] = wf.id
-                wb_spec = spec_parser.get_workbook_spec_from_yaml(WB_TEXT).to_dict()
                 wb = db_api.create_workbook({
                     'id': '22222222-2222-4222-8222-222222222222', 'name': 'c16_wb', 'namespace': '',
                     'definition': WB_TEXT, 'spec': wb_spec, 'scope': 'private', 'tags': []})
                 ids['wb'] = wb.id
-                act_spec = spec_parser.get_action_list_spec_from_yaml(ACT_TEXT).get_actions()[0].to_dict()
                 act = db_api.create_action_definition({
                     'id': '33333333-3333-4333-8333-333333333333', 'name': 'c16_act', 'namespace': '',
                     'definition': ACT_TEXT, 'spec': act_spec, 'scope': 'private', 'tags': [], 'is_system': False,
@@ -369,6 +377,35 @@ class App:
                     'id': 'dddddddd-dddd-4ddd-8ddd-dddddddddddd', 'resource_id': wf.id, 'resource_type': 'workflow',
                     'member_id': 'other-project', 'status': 'pending'})
                 ids['member'] = mem.member_id
+            # private rows of ANOTHER project (for the cross-project listing oracle)
+            self.auth_context.set_ctx(self.other_ctx)
+            try:
+                with db_api.transaction():
+                    owf = db_api.create_workflow_definition({
+                        'id': 'e1111111-1111-4111-8111-111111111111', 'name': 'c16_foreign_wf', 'namespace': '',
+                        'definition': WF_TEXT, 'spec': wf_spec, 'scope': 'private', 'tags': [], 'is_system': False})
+                    db_api.create_workflow_execution({
+                        'id': 'e9999999-9999-4999-8999-999999999999', 'name': 'c16_foreign_wf', 'workflow_name': 'c16_foreign_wf',
+                        'workflow_id': owf.id, 'workflow_namespace': '', 'description': 'c16_foreign_ex', 'spec': wf_spec,
+                        'state': 'SUCCESS', 'context': {}, 'input': {}, 'output': {}, 'params': {}})
+                    db_api.create_cron_trigger({
+                        'id': 'e7777777-7777-4777-8777-777777777777', 'name': 'c16_foreign_ct', 'pattern': '* * * * *',
+                        'workflow_name': 'c16_foreign_wf', 'workflow_id': owf.id, 'workflow_input': {}, 'workflow_params': {},
+                        'scope': 'private', 'remaining_executions': 5,
+                        'next_execution_time': __import__('datetime').datetime(2030, 1, 1)})
+                    db_api.create_event_trigger({
+                        'id': 'e8888888-8888-4888-8888-888888888888', 'name': 'c16_foreign_et', 'workflow_id': owf.id,
+                        'workflow_input': {}, 'workflow_params': {}, 'exchange': 'ex', 'topic': 'tp', 'event': 'ev9',
+                        'scope': 'private'})
+                    ocs = db_api.create_code_source({
+                        'id': 'e4444444-4444-4444-8444-444444444444', 'name': 'c16_foreign_cs', 'namespace': '',
+                        'content': CODE_TEXT, 'version': 1, 'scope': 'private', 'tags': []})
+                    db_api.create_dynamic_action_definition({
+                        'id': 'e5555555-5555-4555-8555-555555555555', 'name': 'c16_foreign_da', 'namespace': '',
+                        'class_name': 'C16Action', 'code_source_id': ocs.id, 'code_source_name': 'c16_foreign_cs',
+                        'scope': 'private'})
+            finally:
+                self.auth_context.set_ctx(self.ctx)
             self.ids = ids
             return ids
         finally:
@@ -380,7 +417,7 @@ class App:
         self.events = []
         self.rpc_calls = []
         self.auth_context.set_ctx(self.ctx)
-        headers = {'Accept': 'application/json'}
+        headers = {}
         body = req.get('body')
         ctype = req.get('ctype')
         verb = req['verb']
@@ -398,6 +435,7 @@ class App:
                 headers['Content-Type'] = 'text/plain'
                 r = fn(req['url'], body or '', **kw)
         self.auth_context.set_ctx(self.ctx)
+        self.last_body = r.text
         return r.status_int, list(self.events), list(self.rpc_calls)
 
 
@@ -575,7 +613,7 @@ def variant(req, cond):
     if cond == 'CAllProjects':
         r['url'] = with_query(r['url'], 'all_projects=true')
     elif cond == 'CAllProjectsOrProjectId':
-        r['url'] = with_query(r['url'], 'project_id=some-other-project')
+        r['url'] = with_query(r['url'], 'project_id=' + OTHER_PROJECT)
     elif cond == 'CScopePublic':
         if r['ctype'] == 'json':
             r['body'] = dict(r['body'] or {}, scope='public')
@@ -615,12 +653,13 @@ def data_events(events):
     return [e for e in events if e[0] == 'D']
 
 
-def classify_real(status, events, rpc_calls, unchanged):
-    """refusal class of a real response, from observations only"""
+def classify_real(status, events, rpc_calls, unchanged, pre):
+    """refusal class of a real response, from observations only. `pre`: the scenario switches
+    authentication off for a controller decorated with auth_enable_check."""
     touched = bool(data_events(events)) or bool(rpc_calls) or not unchanged
     if status == 403 and not touched:
         return '403'
-    if status == 400 and not touched and not [e for e in events if e[0] == 'E']:
+    if pre and status == 400 and not touched and not [e for e in events if e[0] == 'E']:
         return 'pre400'
     return 'body'
 
@@ -760,8 +799,13 @@ def suite_enumerate(ctx, app, table):
 
 
 def run_scenario(app, req, policy, names=(), auth=False, admin=False, reseed=True, seed_kw=None):
-    if reseed:
+    """One request on the standard rows. The rows are re-created only when an earlier request changed
+    them (or other rows are asked for): refused requests and reads leave them as they are."""
+    want = json.dumps(seed_kw or {}, sort_keys=True)
+    if reseed and (getattr(app, 'clean_hash', None) is None or app.seeded_as != want or app.db_hash() != app.clean_hash):
         app.seed(**(seed_kw or {}))
+        app.seeded_as = want
+        app.clean_hash = app.db_hash()
     app.set_policy(policy, names)
     app.set_auth(auth)
     app.set_admin(admin)
@@ -773,7 +817,8 @@ def run_scenario(app, req, policy, names=(), auth=False, admin=False, reseed=Tru
         app.set_auth(False)
         app.set_admin(False)
         app.set_policy('default')
-    return {'status': status, 'events': events, 'rpc': [c[0] for c in rpcs], 'unchanged': before == after}
+    return {'status': status, 'events': events, 'rpc': [c[0] for c in rpcs], 'unchanged': before == after,
+            'text': getattr(app, 'last_body', '')}
 
 
 def suite_handle_and_oracle(ctx, app, table, live):
@@ -802,6 +847,16 @@ def suite_handle_and_oracle(ctx, app, table, live):
                     cases.append(dict(base, req=req, policy='deny_all', denied='ALL', auth=auth, pre=pre))
                     if fe:
                         cases.append(dict(base, req=req, policy='deny', denied=[fe], auth=auth, pre=pre))
+                    if key not in UNGUARDED_ALLOWLIST:
+                        # the rule the REGISTRY documents for this verb and resource (not what the table says)
+                        docs = documented_rule(app, req['verb'], mount, m['name'])
+                        if len(docs) != 1:
+                            ctx.fail('no-documented-rule:%s' % key,
+                                     'the registry documents %s for %s %s (%s): exactly one rule is required' % (
+                                         docs, req['verb'], '/'.join(mount), key),
+                                     {'method': key, 'request': {k: req[k] for k in ('verb', 'url', 'body')}, 'documented': docs})
+                        else:
+                            cases.append(dict(base, req=req, policy='deny', denied=docs, auth=auth, pre=pre, documented=True))
                 for (rule, cond) in conds:
                     v = variant(req, cond)
                     cases.append(dict(base, req=v, policy='deny', denied=[rule], auth=False, pre=False))       # cond on, denied
@@ -818,7 +873,7 @@ def suite_handle_and_oracle(ctx, app, table, live):
     for c, r in zip(cases, res):
         m = c['m']
         out = run_scenario(app, c['req'], c['policy'], c['denied'] if c['denied'] != 'ALL' else (), auth=c['auth'])
-        real = classify_real(out['status'], out['events'], out['rpc'], out['unchanged'])
+        real = classify_real(out['status'], out['events'], out['rpc'], out['unchanged'], c['pre'])
         model = model_class(parse_pair(r))
         scen = '%s/%s/%s' % (c['policy'], c['req']['tag'], 'cond' if c['req'].get('conds') else '-')
         dist[scen] = dist.get(scen, 0) + 1
@@ -858,15 +913,8 @@ def suite_handle_and_oracle(ctx, app, table, live):
         want403 = None
         if c['policy'] == 'deny_all':
             want403 = 'every policy rule denied'
-        elif c['policy'] == 'deny' and not c['req'].get('conds') and c['denied'] == [c['fe']]:
-            docs = documented_rule(app, c['req']['verb'], c['mount'], m['name'])
-            if docs == c['denied']:
-                want403 = 'the documented rule %s denied' % docs[0]
-            else:
-                ctx.fail('documented-rule-mismatch:%s' % c['key'],
-                         '%s enforces %s but the registry documents %s for %s %s' % (
-                             c['key'], c['fe'], docs, c['req']['verb'], '/'.join(c['mount'])),
-                         dict(case_id, documented=docs))
+        elif c.get('documented'):
+            want403 = 'the documented rule %s denied (every other rule allowed)' % c['denied'][0]
         if want403:
             accept = (out['status'] == 403) or (c['pre'] and out['status'] == 400)
             clean = out['unchanged'] and not out['rpc'] and not data_events(out['events'])
@@ -882,8 +930,21 @@ def suite_handle_and_oracle(ctx, app, table, live):
     return cases
 
 
+def judge_default_policy(kind, out):
+    """the property text for a non-admin caller under the default policy"""
+    clean = out['unchanged'] and not out['rpc']
+    if kind == 'publicize':
+        return out['status'] == 403 and clean and not data_events(out['events'])
+    if kind == 'all-projects':
+        return out['status'] == 403 and clean and not data_events(out['events'])
+    # project_id=<another project>: refused, or at least nothing private of that project is shown
+    return clean and (out['status'] == 403 or 'c16_foreign' not in out['text'])
+
+
 def suite_default_policy_oracle(ctx, app, table):
-    """Default registry policy, non-admin caller: cross-project listing and scope=public are refused."""
+    """Default registry policy, non-admin caller: cross-project listing and scope=public are refused.
+    Independent of the table: every live get_all is asked with all_projects=true and with
+    project_id=<another project that owns private rows>, every POST/PUT with scope=public."""
     ids = app.seed()
     n = 0
     for m in table['methods']:
@@ -893,29 +954,40 @@ def suite_default_policy_oracle(ctx, app, table):
         for mount in m['mounts']:
             for req in build_requests(ids, key, mount) or []:
                 todo = []
-                if m['name'] == 'get_all' and m['all_projects']:
+                if m['name'] == 'get_all':
                     todo.append(('all-projects', variant(req, 'CAllProjects')))
-                    if 'project_id' in m['params']:
-                        todo.append(('all-projects', variant(req, 'CAllProjectsOrProjectId')))
-                if m['verb'] in ('POST', 'PUT') and m['takes_scope']:
+                    todo.append(('foreign-project', variant(req, 'CAllProjectsOrProjectId')))
+                if m['verb'] in ('POST', 'PUT'):
                     todo.append(('publicize', variant(req, 'CScopePublic')))
                 for kind, v in todo:
                     out = run_scenario(app, v, 'default', admin=False)
                     n += 1
                     ctx.count('default_policy', (key, v['url'], json.dumps(v['body'], sort_keys=True)))
-                    clean = out['unchanged'] and not out['rpc'] and not data_events(out['events'])
-                    if out['status'] != 403 or not clean:
+                    if out['status'] == 400 and not data_events(out['events']) and not out['rpc'] and out['unchanged'] and (
+                            (kind != 'publicize' and not (m['all_projects'] if kind == 'all-projects' else 'project_id' in m['params']))
+                            or (kind == 'publicize' and not m['takes_scope'])):
+                        continue   # the method has no such parameter / attribute: rejected as unknown argument
+                    if not judge_default_policy(kind, out):
                         ctx.fail('%s-not-refused:%s' % (kind, key),
-                                 'non-admin caller under the default policy: %s %s answered %d, database unchanged=%s '
-                                 '(required: 403, nothing read or changed)' % (v['verb'], v['url'], out['status'], out['unchanged']),
+                                 'non-admin caller under the default policy: %s %s %s answered %d, database unchanged=%s '
+                                 '(required: 403 and nothing read or changed%s)' % (
+                                     v['verb'], v['url'], json.dumps(v['body']) if isinstance(v['body'], dict) else '',
+                                     out['status'], out['unchanged'],
+                                     '; or no private row of the other project in the answer' if kind == 'foreign-project' else ''),
                                  {'method': key, 'request': {k: v[k] for k in ('verb', 'url', 'body')}, 'policy': 'default',
                                   'kind': kind, 'admin': False})
+                    if kind == 'foreign-project' or not (m['all_projects'] or m['takes_scope']):
+                        continue
                     # an admin is let through to the body (not refused by policy)
                     out2 = run_scenario(app, v, 'default', admin=True)
                     ctx.count('default_policy', (key, v['url'], 'admin'))
                     if out2['status'] == 403 and not data_events(out2['events']):
                         ctx.disagree('default_policy', {'method': key, 'request': v['url'], 'admin': True},
                                      'admin passes the admin-only rule', {'status': out2['status']})
+                    if kind == 'all-projects' and out2['status'] == 200 and 'c16_foreign' not in out2['text']:
+                        ctx.disagree('default_policy', {'method': key, 'request': v['url'], 'admin': True},
+                                     'the other project\'s private row is listed for an admin (the marker works)',
+                                     {'status': out2['status'], 'text': out2['text'][:200]})
     ctx.cov['suites'].setdefault('default_policy', {})['requests'] = n
 
 
@@ -953,7 +1025,7 @@ def exec_table(app):
     return next(t.name for t in app.tables() if t.name.startswith('workflow_executions'))
 
 
-def suite_exec_put(ctx, app):
+def suite_exec_put(ctx, app, only=None):
     rng = ctx.rng
     combos = []
     for st in STATE_TEXTS + [None]:
@@ -961,21 +1033,29 @@ def suite_exec_put(ctx, app):
             for env in (None, {'k2': 'v2'}, {}):
                 for present in (True, False):
                     combos.append((st, desc, env, present))
-    cur_states = ['RUNNING', 'PAUSED', 'ERROR', 'SUCCESS', 'IDLE']
+    cur_states = ROW_STATES
     if not ctx.thorough():
-        # all request combinations on a present row in one current state each (the controller never reads the
-        # current state), absent rows for a third of them
+        # every request combination on a present row; absent rows for a third of them
         combos = [c for c in combos if c[3] or rng.random() < 0.34]
     cases, exprs = [], []
     for (st, desc, env, present) in combos:
-        for cur in (cur_states if ctx.thorough() else [rng.choice(cur_states)]):
+        # the current state matters only for an env update without a state: all current states there,
+        # two random ones elsewhere (all of them in the thorough tier)
+        if ctx.thorough() or (env and not st and present):
+            curs = cur_states
+        else:
+            curs = rng.sample(cur_states, 2 if present else 1)
+        for cur in curs:
             cases.append((st, desc, env, present, cur))
-            exprs.append('show_outcome (exec_put %s %s %s %s)' % (
-                coq_bool(present), coq_str(st or ''), coq_bool(bool(desc)), coq_bool(bool(env))))
-    res = core.coq_eval('c16execput', IMPORTS, exprs)
+            exprs.append('show_outcome (exec_put %s %s %s %s %s)' % (
+                coq_bool(present), COQ_STATE[cur], coq_str(st or ''), coq_bool(bool(desc)), coq_bool(bool(env))))
+    if only is not None:
+        cases, res = [tuple(only)], [None]
+    else:
+        res = core.coq_eval('c16execput', IMPORTS, exprs)
     tname = exec_table(app)
     for (st, desc, env, present, cur), r in zip(cases, res):
-        model = parse_outcome(r)
+        model = parse_outcome(r) if r is not None else None
         ids = app.seed(wf_state=cur)
         rid = ids['wf_ex'] if present else ABSENT
         body = {}
@@ -1007,7 +1087,7 @@ def suite_exec_put(ctx, app):
         case = {'request': {'verb': 'PUT', 'url': '/v2/executions/%s' % rid, 'body': body}, 'present': present, 'current': cur}
         ctx.count('exec_put', (st, desc, json.dumps(env), present, cur), nontrivial=present)
         ctx.cov['disagreements_checked'] += 1
-        if model != impl:
+        if model is not None and model != impl:
             ctx.disagree('exec_put', case, model, impl)
         # oracle: the property text, on observations only
         bad = None
@@ -1029,43 +1109,73 @@ def suite_exec_put(ctx, app):
         if status >= 400 and (rpcs or before != after):
             bad = 'refused (%d) but had an effect' % status
         if bad:
-            ctx.fail('exec-put:%s' % bad.split(' ')[0], 'PUT execution %r -> %d: %s' % (body, status, bad), dict(case, kind='exec_put'))
+            ctx.fail('exec-put:%s' % bad.split(' ')[0], 'PUT execution %r -> %d: %s' % (body, status, bad), dict(case, kind='exec_put', tuple=[st, desc, env, present, cur]))
     ctx.sample({'suite': 'exec_put', 'body': {'state': 'PAUSED'}, 'expected': 'pause_workflow'})
 
 
-def suite_exec_delete(ctx, app):
+FORCE_TEXTS = [None, '', 'true', 'True', '1', 'false', 'False', '0', 'no']
+TRUE_TEXTS = ('1', 't', 'true', 'on', 'y', 'yes')
+
+
+def judge_exec_delete(ctx, case, cur, force, status, gone):
+    """the property text on one observed DELETE"""
+    meant_force = force is not None and force.lower() in TRUE_TEXTS
+    if gone and cur not in FINAL + ('SKIPPED',) and not meant_force:
+        if force:
+            ctx.fail('exec-delete:force-text-not-true-deletes-unfinished',
+                     'DELETE %s removed an execution in state %s: force=%s is not a request to force, yet the unfinished '
+                     'execution was deleted (required: 403, row kept)' % (case['request']['url'], cur, force),
+                     dict(case, kind='exec_delete'))
+        else:
+            ctx.fail('exec-delete:unfinished-without-force',
+                     'DELETE %s removed an execution in state %s without force' % (case['request']['url'], cur),
+                     dict(case, kind='exec_delete'))
+        return False
+    if gone and status >= 400:
+        ctx.fail('exec-delete:refused-but-deleted', 'DELETE %s answered %d but the row is gone' % (case['request']['url'], status),
+                 dict(case, kind='exec_delete'))
+        return False
+    return True
+
+
+def one_exec_delete(app, cur, force, present):
+    ids = app.seed(wf_state=cur)
+    rid = ids['wf_ex'] if present else ABSENT
+    url = '/v2/executions/%s' % rid + ('' if force is None else '?force=%s' % force)
+    app.set_policy('allow_all')
+    status, events, rpcs = app.request({'verb': 'DELETE', 'url': url})
+    after = row_of(app, exec_table(app), ids['wf_ex'])
+    app.set_policy('default')
+    return url, status, rpcs, after is None
+
+
+def suite_exec_delete(ctx, app, only=None):
     cases, exprs = [], []
     for cur in ROW_STATES:
-        for force in (None, 'true', 'false'):
+        for force in FORCE_TEXTS:
             for present in (True, False):
                 cases.append((cur, force, present))
-                exprs.append('show_outcome (exec_delete %s %s %s)' % (coq_bool(present), coq_bool(force == 'true'), COQ_STATE[cur]))
-    res = core.coq_eval('c16execdel', IMPORTS, exprs)
-    tname = exec_table(app)
+                exprs.append('show_outcome (exec_delete exec_delete_force_conv %s %s %s)' % (
+                    coq_bool(present), 'None' if force is None else '(Some %s)' % coq_str(force), COQ_STATE[cur]))
+    if only is not None:
+        cases, res = [tuple(only)], [None]
+    else:
+        res = core.coq_eval('c16execdel', IMPORTS, exprs)
     for (cur, force, present), r in zip(cases, res):
-        model = parse_outcome(r)
-        ids = app.seed(wf_state=cur)
-        rid = ids['wf_ex'] if present else ABSENT
-        url = '/v2/executions/%s' % rid + ('' if force is None else '?force=%s' % force)
-        app.set_policy('allow_all')
-        status, events, rpcs = app.request({'verb': 'DELETE', 'url': url})
-        after = row_of(app, tname, ids['wf_ex'])
-        app.set_policy('default')
+        model = parse_outcome(r) if r is not None else None
+        url, status, rpcs, gone = one_exec_delete(app, cur, force, present)
         impl = {'status': status, 'call': '-' if not rpcs else rpcs[0][0], 'upd_desc': False, 'upd_env': False,
-                'deleted': after is None}
-        case = {'request': {'verb': 'DELETE', 'url': url, 'body': None}, 'present': present, 'current': cur}
+                'deleted': gone}
+        case = {'request': {'verb': 'DELETE', 'url': url, 'body': None}, 'present': present, 'current': cur, 'force': force,
+                'tuple': [cur, force, present]}
         ctx.count('exec_delete', (cur, force, present), nontrivial=present)
         ctx.cov['disagreements_checked'] += 1
-        if model != impl:
+        if model is not None and model != impl:
             ctx.disagree('exec_delete', case, model, impl)
-        if after is None and cur not in FINAL + ('SKIPPED',) and force != 'true':
-            ctx.fail('exec-delete:unfinished-without-force', 'DELETE %s removed an execution in state %s without force' % (url, cur),
-                     dict(case, kind='exec_delete'))
-        if after is None and status >= 400:
-            ctx.fail('exec-delete:refused-but-deleted', 'DELETE %s answered %d but the row is gone' % (url, status), dict(case, kind='exec_delete'))
+        judge_exec_delete(ctx, case, cur, force, status, gone)
 
 
-def suite_task_put(ctx, app):
+def suite_task_put(ctx, app, only=None):
     rng = ctx.rng
     combos = []
     for st in STATE_TEXTS + [None]:
@@ -1089,9 +1199,12 @@ def suite_task_put(ctx, app):
         exprs.append('show_outcome (task_put %s %s %s %s %s %s %s)' % (
             coq_bool(present), coq_bool(name != 'bad'), coq_bool(wfname != 'bad'), coq_str(st or ''), COQ_STATE[cur],
             'None' if reset is None else '(Some %s)' % coq_bool(reset), coq_bool(wi)))
-    res = core.coq_eval('c16taskput', IMPORTS, exprs)
+    if only is not None:
+        combos, res = [tuple(only)], [None]
+    else:
+        res = core.coq_eval('c16taskput', IMPORTS, exprs)
     for (st, cur, reset, wi, present, name, wfname), r in zip(combos, res):
-        model = parse_outcome(r)
+        model = parse_outcome(r) if r is not None else None
         ids = app.seed(task_state=cur, with_items=wi)
         rid = ids['task_ex'] if present else ABSENT
         body = {}
@@ -1118,7 +1231,7 @@ def suite_task_put(ctx, app):
                 'with_items': wi}
         ctx.count('task_put', (st, cur, reset, wi, present, name, wfname), nontrivial=present)
         ctx.cov['disagreements_checked'] += 1
-        if model != impl:
+        if model is not None and model != impl:
             ctx.disagree('task_put', case, model, impl)
         bad = None
         if rpcs:
@@ -1135,19 +1248,22 @@ def suite_task_put(ctx, app):
         if status >= 400 and rpcs:
             bad = 'refused (%d) but called the engine' % status
         if bad:
-            ctx.fail('task-put:%s' % bad.split(' ')[0], 'PUT task %r (current %s) -> %d: %s' % (body, cur, status, bad), dict(case, kind='task_put'))
+            ctx.fail('task-put:%s' % bad.split(' ')[0], 'PUT task %r (current %s) -> %d: %s' % (body, cur, status, bad), dict(case, kind='task_put', tuple=[st, cur, reset, wi, present, name, wfname]))
 
 
-def suite_action_put(ctx, app):
+def suite_action_put(ctx, app, only=None):
     cases, exprs = [], []
     for st in STATE_TEXTS + [None]:
-        for output in (None, '{"r": 1}', ''):
+        for output in (None, '{"r": 1}', '{}'):
             for present in (True, False):
                 cases.append((st, output, present))
                 exprs.append('show_outcome (action_put action_supported_states %s)' % coq_str(st or ''))
-    res = core.coq_eval('c16actput', IMPORTS, exprs)
+    if only is not None:
+        cases, res = [tuple(only)], [None]
+    else:
+        res = core.coq_eval('c16actput', IMPORTS, exprs)
     for (st, output, present), r in zip(cases, res):
-        model = parse_outcome(r)
+        model = parse_outcome(r) if r is not None else None
         ids = app.seed()
         rid = ids['action_ex'] if present else ABSENT
         body = {}
@@ -1175,7 +1291,7 @@ def suite_action_put(ctx, app):
         case = {'request': {'verb': 'PUT', 'url': '/v2/action_executions/%s' % rid, 'body': body}, 'present': present}
         ctx.count('action_put', (st, output, present))
         ctx.cov['disagreements_checked'] += 1
-        if model != impl:
+        if model is not None and model != impl:
             ctx.disagree('action_put', case, model, impl)
         bad = None
         if rpcs and st not in ('SUCCESS', 'ERROR', 'CANCELLED', 'PAUSED', 'RUNNING'):
@@ -1185,10 +1301,10 @@ def suite_action_put(ctx, app):
         if before != after:
             bad = 'the controller wrote to the database'
         if bad:
-            ctx.fail('action-put:%s' % bad.split(' ')[0], 'PUT action execution %r -> %d: %s' % (body, status, bad), dict(case, kind='action_put'))
+            ctx.fail('action-put:%s' % bad.split(' ')[0], 'PUT action execution %r -> %d: %s' % (body, status, bad), dict(case, kind='action_put', tuple=[st, output, present]))
 
 
-def suite_action_delete(ctx, app):
+def suite_action_delete(ctx, app, only=None):
     cases, exprs = [], []
     for cur in ROW_STATES:
         for cfgflag in (True, False):
@@ -1196,10 +1312,13 @@ def suite_action_delete(ctx, app):
                 cases.append((cur, cfgflag, which))
                 exprs.append('show_outcome (action_delete %s %s %s %s)' % (
                     coq_bool(cfgflag), coq_bool(which != 'absent'), coq_bool(which == 'adhoc'), COQ_STATE[cur]))
-    res = core.coq_eval('c16actdel', IMPORTS, exprs)
+    if only is not None:
+        cases, res = [tuple(only)], [None]
+    else:
+        res = core.coq_eval('c16actdel', IMPORTS, exprs)
     tname = next(t.name for t in app.tables() if t.name.startswith('action_executions'))
     for (cur, cfgflag, which), r in zip(cases, res):
-        model = parse_outcome(r)
+        model = parse_outcome(r) if r is not None else None
         ids = app.seed(action_state=cur, adhoc_state=cur)
         rid = {'adhoc': ids['ad_hoc_action_ex'], 'task': ids['action_ex'], 'absent': ABSENT}[which]
         app.cfg.CONF.set_override('allow_action_execution_deletion', cfgflag, group='api')
@@ -1207,7 +1326,7 @@ def suite_action_delete(ctx, app):
         try:
             status, events, rpcs = app.request({'verb': 'DELETE', 'url': '/v2/action_executions/%s' % rid})
         finally:
-            app.cfg.CONF.clear_override('allow_action_execution_deletion', group='api')
+            app.cfg.CONF.set_override('allow_action_execution_deletion', True, group='api')
             app.set_policy('default')
         gone = which != 'absent' and row_of(app, tname, rid) is None
         impl = {'status': status, 'call': '-' if not rpcs else rpcs[0][0], 'upd_desc': False, 'upd_env': False, 'deleted': gone}
@@ -1215,11 +1334,11 @@ def suite_action_delete(ctx, app):
                 'allow_action_execution_deletion': cfgflag, 'which': which}
         ctx.count('action_delete', (cur, cfgflag, which), nontrivial=(which != 'absent'))
         ctx.cov['disagreements_checked'] += 1
-        if model != impl:
+        if model is not None and model != impl:
             ctx.disagree('action_delete', case, model, impl)
         if gone and (not cfgflag or which != 'adhoc' or cur not in FINAL + ('SKIPPED',)):
             ctx.fail('action-delete:guard', 'DELETE action execution (%s, state %s, deletion allowed=%s) removed the row' % (which, cur, cfgflag),
-                     dict(case, kind='action_delete'))
+                     dict(case, kind='action_delete', tuple=[cur, cfgflag, which]))
 
 
 def observations(ctx, app, table):
@@ -1278,29 +1397,42 @@ def search(ctx):
 
 
 def replay(obj):
+    """Re-run the recorded request on the real application and judge it with the same oracle.
+    Exit status 1 while the property is still violated by this input, 0 when it no longer is."""
     r = obj.get('replay', {})
     if 'request' not in r:
         print(json.dumps(obj, indent=1)[:3000])
         return 1
     app = get_app()
+    ctx = core.Ctx('C16', 'quick', 0)
+    kind = r.get('kind', 'denied')
     req = dict(r['request'])
     req['ctype'] = 'json' if isinstance(req.get('body'), dict) else None
-    kind = r.get('kind', 'denied')
-    seed_kw = {}
-    if kind == 'exec_put' or kind == 'exec_delete':
-        seed_kw['wf_state'] = r.get('current', 'RUNNING')
-    if kind == 'task_put':
-        seed_kw['task_state'] = r.get('current', 'ERROR')
-        seed_kw['with_items'] = r.get('with_items', False)
-    if kind == 'action_delete':
-        seed_kw['action_state'] = seed_kw['adhoc_state'] = r.get('current', 'SUCCESS')
-        app.cfg.CONF.set_override('allow_action_execution_deletion', r.get('allow_action_execution_deletion', False), group='api')
-    policy = r.get('policy', 'allow_all')
-    denied = r.get('denied', [])
-    if denied == 'ALL':
-        policy, denied = 'deny_all', []
-    out = run_scenario(app, req, policy, denied, auth=r.get('auth_enable', False), admin=r.get('admin', False), seed_kw=seed_kw)
-    print('%s %s body=%r policy=%s denied=%s -> status %d, database unchanged=%s, engine calls=%s, events=%s' % (
-        req['verb'], req['url'], req.get('body'), policy, denied, out['status'], out['unchanged'], out['rpc'], out['events'][:8]))
-    print('recorded failure: %s' % obj.get('what'))
-    return 1
+    suites = {'exec_put': suite_exec_put, 'exec_delete': suite_exec_delete, 'task_put': suite_task_put,
+              'action_put': suite_action_put, 'action_delete': suite_action_delete}
+    if kind in suites and 'tuple' in r:
+        suites[kind](ctx, app, only=r['tuple'])
+        print('%s %s body=%r (rows: %s)' % (req['verb'], req['url'], req.get('body'),
+                                            {k: r[k] for k in ('current', 'present', 'with_items', 'which') if k in r}))
+    else:
+        policy = r.get('policy', 'allow_all')
+        denied = r.get('denied', [])
+        if denied == 'ALL':
+            policy, denied = 'deny_all', []
+        out = run_scenario(app, req, policy, denied, auth=r.get('auth_enable', False), admin=r.get('admin', False))
+        print('%s %s body=%r policy=%s denied=%s -> status %d, database unchanged=%s, engine calls=%s, events=%s' % (
+            req['verb'], req['url'], req.get('body'), policy, denied, out['status'], out['unchanged'], out['rpc'],
+            out['events'][:8]))
+        if kind in ('publicize', 'all-projects', 'foreign-project'):
+            ok = judge_default_policy(kind, out)
+        else:
+            pre = r.get('method', '').startswith('MembersController') and not r.get('auth_enable', False)
+            ok = (out['status'] == 403 or (pre and out['status'] == 400)) and out['unchanged'] and not out['rpc'] \
+                and not data_events(out['events'])
+        if not ok:
+            ctx.fail(obj.get('signature', '?'), obj.get('what', ''), r)
+    for f in ctx.failures:
+        print('still failing: %s' % f['what'])
+    if not ctx.failures:
+        print('the recorded failure does not reproduce: %s' % obj.get('what'))
+    return 1 if ctx.failures else 0
